@@ -25,17 +25,21 @@ type (
 )
 
 func (ds *dataStore) save(fileName string) (err error) {
-	// open output file
-	f, err := os.Create(fileName)
+	// The snapshot is written to a temporary file and renamed over the previous
+	// one only when it is complete, so that a crash at any point leaves either
+	// the old or the new snapshot - never a partial file under the real name.
+	tempName := fileName + ".tmp"
+	f, err := os.Create(tempName)
 	if err != nil {
 		return
 	}
-	simPersistStage("created", fileName)
+	simPersistStage("created", tempName)
 
-	// close f on exit and check for its returned error
+	closed := false
 	defer func() {
-		if err := f.Close(); err != nil {
-			panic(err)
+		if !closed {
+			f.Close()
+			os.Remove(tempName)
 		}
 	}()
 
@@ -52,7 +56,7 @@ func (ds *dataStore) save(fileName string) (err error) {
 	if err = enc.Encode(ph); err != nil {
 		return
 	}
-	simPersistStage("header", fileName)
+	simPersistStage("header", tempName)
 
 	// write the data
 	for _, item := range ds.data.buckets {
@@ -101,10 +105,26 @@ func (ds *dataStore) save(fileName string) (err error) {
 		if err != nil {
 			return
 		}
-		simPersistStage("key", fileName)
+		simPersistStage("key", tempName)
 	}
 
-	simPersistStage("before-close", fileName)
+	simPersistStage("before-close", tempName)
+
+	closed = true
+	if err = f.Sync(); err != nil {
+		f.Close()
+		os.Remove(tempName)
+		return
+	}
+	if err = f.Close(); err != nil {
+		os.Remove(tempName)
+		return
+	}
+	if err = os.Rename(tempName, fileName); err != nil {
+		os.Remove(tempName)
+		return
+	}
+	simPersistStage("renamed", fileName)
 	return
 }
 
